@@ -7,6 +7,7 @@ import bbs_tables as T
 import rf_hash, rf_gates, rf_consts, rf_panic, rf_frame, rf_rand, rf_codec, rf_bits
 import cl03_rules as CL
 
+CL03_FS_SCOPE = ('cl03::sigma_protocols::NISP2', 'cl03::sigma_protocols::NISPSecrets', 'cl03::sigma_protocols::NISPMulti')
 BBS_SCOPE = ('bbsplus::', 'utils::util::bbsplus_utils', 'utils::message::bbsplus_message')
 
 PLAIN_ENTRIES = [T.SIG + 'sign', T.SIG + 'verify', T.POK + 'proof_gen', T.POK + 'proof_verify', T.SIG + 'update_signature']
@@ -42,6 +43,7 @@ def P(pid):
     elif pid == 'C02':
         R = [
             ('RF-B pass-through arguments keep their role', rf_consts.rule_argument_roles, 40),
+            ('RF-B message lists handed down whole', rf_consts.rule_list_integrity, 15),
             ('RF-C hash binding (domain, map, e)', lambda c: rf_hash.rule_hash_binding(c, rf_hash.BBS_TABLE, BBS_SCOPE,
                 only_fns=hash_fns('calculate_domain', 'messages_to_scalar', 'map_message_to_scalar_as_hash', 'core_sign', 'hash_to_scalar')), 20),
             ('RF-D verify gates', lambda c: rf_gates.rule_accept_requirements(c, only(T.VERIFY_REQS, T.SIG + 'verify', T.BSIG + 'verify_blind_sign')), 2),
@@ -49,6 +51,7 @@ def P(pid):
             ('RF-T size thresholds (uniform behaviour in L / lengths)', rf_frame.rule_size_thresholds, 10),
             ('RF-D checked constructors only', rf_frame.rule_checked_constructors, 8),
             ('RF-P verification folds every message', lambda c: rf_codec.rule_loop_coverage(c, fns=['bbsplus::signature::core_verify']), 1),
+            ('RF-D success values are computed from the inputs they bind', lambda c: rf_frame.rule_result_binding(c, only=['::sign']), 4),
         ]
         meta['explanation'] = ('Necessary conditions of binding: every datum the signature must be bound to must-flows into the hashed '
                                'domain / message-scalar buffers on every path, and the pairing comparison that gates acceptance has A, e, pk, '
@@ -56,6 +59,7 @@ def P(pid):
     elif pid == 'C04':
         R = [
             ('RF-B pass-through arguments keep their role', rf_consts.rule_argument_roles, 40),
+            ('RF-B message lists handed down whole', rf_consts.rule_list_integrity, 15),
             ('RF-C challenge ingredients', lambda c: rf_hash.rule_hash_binding(c, rf_hash.BBS_TABLE, BBS_SCOPE,
                 only_fns=hash_fns('proof_challenge_calculate', 'calculate_domain')), 15),
             ('RF-D proof_verify gates', lambda c: rf_gates.rule_accept_requirements(c, only(T.VERIFY_REQS, T.POK + 'proof_verify')), 4),
@@ -70,12 +74,14 @@ def P(pid):
     elif pid == 'C06':
         R = [
             ('RF-B pass-through arguments keep their role', rf_consts.rule_argument_roles, 40),
+            ('RF-B message lists handed down whole', rf_consts.rule_list_integrity, 15),
             ('RF-C blind challenge ingredients', lambda c: rf_hash.rule_hash_binding(c, rf_hash.BBS_TABLE, BBS_SCOPE,
                 only_fns=hash_fns('calculate_blind_challenge', 'finalize_blind_sign')), 10),
             ('RF-D blind gates', lambda c: rf_gates.rule_accept_requirements(c, only(T.VERIFY_REQS, T.BSIG + 'blind_sign',
                 T.COM + 'deserialize_and_validate_commit', T.BSIG + 'verify_blind_sign', T.POK + 'blind_proof_verify')), 6),
             ('RF-B blind interface constants', lambda c: rf_consts.rule_interface_constants(c, BLIND_ENTRIES), 20),
             ('RF-T size thresholds (uniform behaviour in L / lengths)', rf_frame.rule_size_thresholds, 10),
+            ('RF-D success values are computed from the inputs they bind', lambda c: rf_frame.rule_result_binding(c, only=['blind_sign']), 5),
         ]
         meta['explanation'] = ('Necessary conditions of blind soundness: blind_sign is control dependent on the commitment-proof challenge '
                                'equality, whose operands depend on the whole serialized commitment, the blind generators and the blind api id; '
@@ -83,6 +89,7 @@ def P(pid):
     elif pid == 'C11':
         R = [
             ('RF-B interface constants (all entry points)', rf_consts.rule_interface_constants, 40),
+            ('RF-A absent == empty in every function of the layer', rf_consts.rule_option_normalisation_all, 50),
             ('A5 ciphersuite constants', rf_consts.rule_ciphersuite_constants, 30),
             ('RF-C generator seeds', lambda c: rf_hash.rule_hash_binding(c, rf_hash.BBS_TABLE, BBS_SCOPE, only_fns=hash_fns('create_generators')), 10),
             ('RF-S no cache / shared state (generators are a pure function of count, api_id and the suite)', rf_consts.rule_shared_state, 3),
@@ -94,6 +101,7 @@ def P(pid):
     elif pid == 'C03':
         R = [
             ('RF-B pass-through arguments keep their role', rf_consts.rule_argument_roles, 40),
+            ('RF-B message lists handed down whole', rf_consts.rule_list_integrity, 15),
             ('RF-A option-normalisation proof_gen/proof_verify', lambda c: rf_consts.rule_option_normalisation(c, [T.POK + 'proof_gen', T.POK + 'proof_verify']), 8),
             ('RF-N proof length and layout', rf_codec.rule_proof_length, 4),
             ('RF-N reader/writer agreement', rf_codec.rule_reader_writer, 3),
@@ -105,6 +113,7 @@ def P(pid):
             ('RF-T size thresholds (uniform behaviour in L / lengths)', rf_frame.rule_size_thresholds, 10),
             ('RF-G2 role positions (prover)', rf_rand.rule_role_projection, 6),
             ('RF-F proof_gen panic census', lambda c: rf_panic.rule_panic_census(c, entries=[T.POK + 'proof_gen'], with_serde=False, min_functions=12), 40),
+            ('RF-D success values are computed from the inputs they bind', lambda c: rf_frame.rule_result_binding(c, only=['::proof_gen']), 6),
         ]
         meta['explanation'] = ('Decides completely: None==empty for every optional input of proof_gen / proof_verify; proof length = 272 + 32 * U from the '
                                'writer layout and the one-push-per-undisclosed-message loop; reader offsets equal writer offsets. Decides as necessary conditions '
@@ -114,6 +123,7 @@ def P(pid):
     elif pid == 'C05':
         R = [
             ('RF-B pass-through arguments keep their role', rf_consts.rule_argument_roles, 40),
+            ('RF-B message lists handed down whole', rf_consts.rule_list_integrity, 15),
             ('RF-A option-normalisation blind entry points', lambda c: rf_consts.rule_option_normalisation(c, BLIND_ENTRIES), 14),
             ('RF-B blind interface constants', lambda c: rf_consts.rule_interface_constants(c, BLIND_ENTRIES), 20),
             ('RF-O production/mock twin agreement', rf_rand.rule_cfg_twins, 8),
@@ -122,6 +132,7 @@ def P(pid):
             ('RF-T size thresholds (uniform behaviour in L / lengths)', rf_frame.rule_size_thresholds, 10),
             ('RF-B index translation agreement', rf_codec.rule_index_translation, 2),
             ('RF-F blind generation panic census', lambda c: rf_panic.rule_panic_census(c, entries=[T.POK + 'blind_proof_gen', T.BSIG + 'blind_sign'], with_serde=False, min_functions=15), 60),
+            ('RF-D success values are computed from the inputs they bind', lambda c: rf_frame.rule_result_binding(c, only=['blind_sign','commit','blind_proof_gen']), 15),
         ]
         meta['explanation'] = ('Decides completely: None==empty for the optional octet/list inputs of the five blind entry points. Decides as necessary conditions: '
                                'all blind entry points reach only API_ID_BLIND (+ BLIND_ for blind generators) at every role, the commit randomness request M + 2 '
@@ -160,6 +171,7 @@ def P(pid):
             ('RF-D identity / zero exclusion in decoders', lambda c: rf_gates.rule_accept_requirements(c, T.DECODER_REQS), 6),
             ('RF-D checked constructors only', rf_frame.rule_checked_constructors, 8),
             ('RF-N reader/writer agreement', rf_codec.rule_reader_writer, 3),
+            ('RF-N serde writer/reader agreement (derive output)', rf_codec.rule_serde_symmetry, 25),
         ]
         meta['explanation'] = ('Decides completely the length clause: the set of input lengths each decoder can accept, computed from difference-bound '
                                'facts and modular guards at its accept sites through delegated decoders, equals the tabled framing. Decides as necessary '
@@ -170,6 +182,7 @@ def P(pid):
             ('A5 constants equal the drafts', rf_consts.rule_ciphersuite_constants, 30),
             ('RF-C ingredient sets and length prefixes', lambda c: rf_hash.rule_hash_binding(c, rf_hash.BBS_TABLE, BBS_SCOPE), 60),
             ('RF-C I2OSP widths', rf_hash.rule_i2osp_width, 8),
+            ('RF-A absent == empty in every function of the layer', rf_consts.rule_option_normalisation_all, 50),
             ('RF-S no shared state (schedule quantifier)', rf_consts.rule_shared_state, 3),
         ]
         meta['explanation'] = ('Value-level conformance with the drafts cannot be decided statically and is not claimed. Decided clauses: the three size '
@@ -184,6 +197,7 @@ def P(pid):
             ('RF-T size thresholds (uniform behaviour in L / lengths)', rf_frame.rule_size_thresholds, 10),
 
             ('RF-F update_signature panic census', lambda c: rf_panic.rule_panic_census(c, entries=[T.SIG + 'update_signature'], with_serde=False, min_functions=8), 12),
+            ('RF-D success values are computed from the inputs they bind', lambda c: rf_frame.rule_result_binding(c, only=['update_signature','::sign']), 9),
         ]
         meta['explanation'] = ('Decides completely: a signature is returned only if update_index < n (boundary proven both ways) and the generator '
                                'selected is values[update_index + 1] as in sign/verify; update_signature reaches the same interface constants as sign; '
@@ -193,6 +207,7 @@ def P(pid):
         R = [
             ('RF-D CL03 verify gates (equation, e range, attribute range)', lambda c: rf_gates.rule_accept_requirements(c, CL.C13_REQS), 6),
             ('RF-Q issued exponent leaves the loop only when valid', CL.rule_e_loop_exit, 3),
+            ('RF-P every attribute is folded with the base of its own position', lambda c: rf_codec.rule_loop_coverage(c, fns=[CL.SIGI + 'sign_multiattr', CL.SIGI + 'verify_multiattr'], follow_prefix='cl03::signature::'), 3),
         ]
         meta['explanation'] = ('CL03 is analysed in the all-features configuration the baseline never builds. Decided (necessary): verify / verify_multiattr accept only through '
                                'the equation comparison (depending on v, e, s, bases, attributes, b, c, N), the lower bound on e and a comparison of every attribute with 2^lm '
@@ -202,6 +217,7 @@ def P(pid):
         R = [
             ('RF-B pass-through arguments keep their role (CL03)', lambda c: rf_consts.rule_argument_roles(c, scope=('cl03::',), min_sites=25), 25),
             ('RF-D blind_sign gated by verify_proof', CL.rule_blind_sign_gated, 3),
+            ('RF-C Fiat-Shamir ingredients of the issuance sigma protocols', lambda c: rf_hash.rule_hash_binding(c, rf_hash.CL03_FS_TABLE, CL03_FS_SCOPE), 38),
             ('RF-D verify_proof gates', lambda c: rf_gates.rule_accept_requirements(c, CL.C14_REQS), 4),
             ('RF-B commit / prove base agreement', CL.rule_commit_prove_base_agreement, 3),
             ('RF-J carried commitments are equated', CL.rule_carried_commitment_equalities, 6),
@@ -217,6 +233,8 @@ def P(pid):
         R = [
             ('RF-B pass-through arguments keep their role (CL03)', lambda c: rf_consts.rule_argument_roles(c, scope=('cl03::',), min_sites=25), 25),
             ('RF-C nisp5 challenge ingredients', CL.rule_nisp5_challenge, 20),
+            ('RF-C Fiat-Shamir ingredients of the per-attribute proofs', lambda c: rf_hash.rule_hash_binding(c, rf_hash.CL03_FS_TABLE, CL03_FS_SCOPE,
+                only_fns={k for k in rf_hash.CL03_FS_TABLE if 'NISPSecrets' in k}), 8),
             ('RF-D proof_verify gates', lambda c: rf_gates.rule_accept_requirements(c, CL.C15_REQS), 3),
             ('RF-J carried commitments are equated', CL.rule_carried_commitment_equalities, 6),
             ('RF-K every PoKSignature leaf gates acceptance', lambda c: CL.rule_every_leaf_gates(c, which=('pok',)), 40),
@@ -232,6 +250,7 @@ def P(pid):
             ('RF-J proofs of square are about the decomposition', CL.rule_carried_commitment_equalities, 6),
             ('RF-C Fiat-Shamir ingredients', CL.rule_range_proof_hash_sites, 15),
             ('RF-Q tolerance exponent shape', CL.rule_tolerance_exponent, 2),
+            ('RF-Q the honest prover refuses out-of-range values', CL.rule_prover_refuses_out_of_range, 3),
         ]
         meta['explanation'] = ('Decided (necessary): acceptance of a Boudot range proof is gated by E\' == E^(2^T), the two decomposition equalities, both proofs of square and both larger-interval '
                                'proofs, each depending on the commitment, bases, modulus and bounds; the commitment carried by each proof of square is equated with E_a_1 / E_b_1 (the transplant defect); '
